@@ -28,7 +28,10 @@ CONSTANTS
     UnsatGe,             \* first >= size is unsatisfiable (wrong design: first > size)
     ImsLe,               \* not modified iff last_modified <= if_modified_since (wrong design: <)
     ImsLocalTime,        \* wrong design: If-Modified-Since is converted through the process's local time
-    ImsNotAfterNow       \* wrong design: an If-Modified-Since later than the server's clock is treated as absent
+    ImsNotAfterNow,      \* wrong design: an If-Modified-Since later than the server's clock is treated as absent
+    BigPositions         \* Range positions are compared as the numbers the client wrote, however large (wrong design:
+                         \* the position is handed to the operating system - seek() - before it is compared with the
+                         \* size, and a position no file offset can hold fails there: "no such file")
 
 (* the part of the file system that changes between requests: the file root/m is absent (0) or present in one of
    two versions of different size and content (1, 2).  Every operator below is evaluated in the current state. *)
@@ -169,7 +172,13 @@ FinalReject(fp) == \/ (CheckFinalDots /\ Occurs(fp, DD))
 (* a request: remainder string, fallback configuration, how the prefix was spelled, Range, If-Modified-Since
      fb    "none" | "in" (a file inside the root) | "out" (an absolute path outside the root)
      head  "under" (prefix + "/" + remainder) | "bare" (the prefix without its trailing slash, remainder empty)
-     range [k |-> "none"|"fl"|"f"|"s"|"unit"|"bad", a |-> first or suffix length, b |-> last]
+     range [k |-> "none"|"fl"|"f"|"s"|"unit"|"bad", a |-> first or suffix length, b |-> last, ha, hb]
+           a position is a numeral of any length.  The specification knows it either as a small number (ha = 0:
+           the number is a) or as Huge (ha > 0; a is then 0 and means nothing): a number beyond every file size,
+           beyond every file offset the operating system accepts, beyond every fixed-width integer (2^31, 2^63,
+           2^64, 10^30: the harness writes each of them).  Two Huge numbers of one request are ordered by their
+           rank ha, hb in 1..2 (equal rank: the same number).  Every comparison below goes through PosLt /
+           BeyondSize / Clamp, so what is decided for Huge is decided for every such number.
      ims   [k |-> "none" | "bad" | "date", d |-> If-Modified-Since minus the file's modification time
             truncated to whole seconds, both as UTC instants, in seconds]
      zone  the time zone of the serving process (an environment dimension: no outcome may depend on it)
@@ -195,24 +204,43 @@ Resp(st, body, cr, clen) == [status |-> st, body |-> body, cr |-> cr, clen |-> c
 Full(C)    == Resp(200, C, NoCR, Len(C))
 Err(st)    == Resp(st, <<>>, NoCR, -1)         \* bodies of error responses are not modelled (projected away)
 
+(* arithmetic on positions <<value, rank>> (rank 0: the small number `value`; rank > 0: Huge) *)
+PosA(r) == <<r.a, r.ha>>
+PosB(r) == <<r.b, r.hb>>
+IsHuge(p) == p[2] > 0
+PosLt(p, q) == IF IsHuge(p) \/ IsHuge(q) THEN p[2] < q[2] ELSE p[1] < q[1]
+PosIsZero(p) == ~IsHuge(p) /\ p[1] = 0
+BeyondSize(p, n) == IsHuge(p) \/ p[1] >= n               \* position >= n, for a size n
+PastSize(p, n)   == IsHuge(p) \/ p[1] > n
+Clamp(p, m) == IF IsHuge(p) THEN m ELSE Min(p[1], m)     \* min(position, m), for a small number m
+Val(p) == p[1]                                           \* only where ~IsHuge(p) has been established
+
 (* range arithmetic as designed: a (first, last) pair in the style of Request.range, then _set_range *)
 RangeDesign(C, r) ==
     LET n == Len(C)
+        a == PosA(r)
+        b == PosB(r)
         Part(start, length, cr) == Resp(206, Slice(C, start, start + length), cr, length)
-        Unsat(start) == IF UnsatGe THEN start >= n ELSE start > n
+        Unsat(start) == IF UnsatGe THEN BeyondSize(start, n) ELSE PastSize(start, n)
         Len1(s, e) == IF PlusOne THEN e - s + 1 ELSE e - s
+        (* SeekBeforeCompare (wrong design): a Huge position reaches seek(); the smaller Huge numbers (rank 1) still
+           fit a file offset and behave, the larger ones (rank 2) fail there *)
+        SeekFails == ~BigPositions /\ n > 0 /\ (a[2] >= 2 \/ b[2] >= 2)
     IN  CASE r.k \in {"none", "unit"} -> Full(C)
           [] r.k = "bad" -> Err(400)
-          [] r.k = "fl" -> IF r.b < r.a THEN Err(400)
+          [] r.k = "fl" -> IF PosLt(b, a) THEN Err(400)
                            ELSE IF n = 0 THEN Full(C)
-                           ELSE IF Unsat(r.a) THEN Resp(416, <<>>, Star(n), -1)
-                           ELSE LET e == Min(r.b, n - 1) IN Part(r.a, Len1(r.a, e), <<r.a, e, n>>)
+                           ELSE IF SeekFails THEN Err(404)
+                           ELSE IF Unsat(a) THEN Resp(416, <<>>, Star(n), -1)
+                           ELSE LET e == Clamp(b, n - 1) IN Part(Val(a), Len1(Val(a), e), <<Val(a), e, n>>)
           [] r.k = "f"  -> IF n = 0 THEN Full(C)
-                           ELSE IF Unsat(r.a) THEN Resp(416, <<>>, Star(n), -1)
-                           ELSE Part(r.a, n - r.a, <<r.a, n - 1, n>>)
-          [] r.k = "s"  -> IF r.a = 0 THEN Err(400)            \* SuffixZeroIsMalformed: "-0" cannot be expressed by Request.range
+                           ELSE IF SeekFails THEN Err(404)
+                           ELSE IF Unsat(a) THEN Resp(416, <<>>, Star(n), -1)
+                           ELSE Part(Val(a), n - Val(a), <<Val(a), n - 1, n>>)
+          [] r.k = "s"  -> IF PosIsZero(a) THEN Err(400)       \* SuffixZeroIsMalformed: "-0" cannot be expressed by Request.range
                            ELSE IF n = 0 THEN Full(C)           \* ZeroSizeIgnoresRange
-                           ELSE LET start == Max(-r.a, -n) IN Part(n + start, -start, <<n + start, n - 1, n>>)
+                           ELSE IF SeekFails THEN Err(404)
+                           ELSE LET start == -Clamp(a, n) IN Part(n + start, -start, <<n + start, n - 1, n>>)
 
 (* the process time zones the harness runs under; offset east of UTC in seconds at the two modification
    times the harness uses (September 2001, January 2002) *)
@@ -271,14 +299,15 @@ MayServe(c)  == IF MustServe(c) THEN {LexTarget(c.path)}
 RangeClass(r, n) ==
     CASE r.k \in {"none", "unit"} -> "full"
       [] r.k = "bad" -> "bad"
-      [] r.k = "fl" /\ r.b < r.a -> "bad"
-      [] r.k = "s" /\ r.a = 0 -> "bad"            \* lenient: 400 or the full body (RFC: unsatisfiable)
+      [] r.k = "fl" /\ PosLt(PosB(r), PosA(r)) -> "bad"
+      [] r.k = "s" /\ PosIsZero(PosA(r)) -> "bad"  \* lenient: 400 or the full body (RFC: unsatisfiable)
       [] n = 0 -> "zero"
-      [] r.k \in {"fl", "f"} /\ r.a >= n -> "unsat"
+      [] r.k \in {"fl", "f"} /\ BeyondSize(PosA(r), n) -> "unsat"
       [] OTHER -> "sat"
-RangeSat(r, n) == CASE r.k = "fl" -> <<r.a, Min(r.b, n - 1)>>
+(* only for class "sat": the first position is then a small number below n *)
+RangeSat(r, n) == CASE r.k = "fl" -> <<r.a, Clamp(PosB(r), n - 1)>>
                     [] r.k = "f"  -> <<r.a, n - 1>>
-                    [] OTHER      -> <<Max(n - r.a, 0), n - 1>>
+                    [] OTHER      -> <<n - Clamp(PosA(r), n), n - 1>>
 
 RespVerdict(f, c, o) ==
     LET C == Content(f)
